@@ -131,6 +131,11 @@ void Tracer::ev(const std::string &line) {
   if (opt.echoTrace) fprintf(stderr, "  | %s\n", line.c_str());
 }
 
+void Tracer::note(const std::string &line) {
+  if (opt.keepTrace && res.trace.size() < 4000) res.trace.push_back(line);
+  if (opt.echoTrace) fprintf(stderr, "  | %s\n", line.c_str());
+}
+
 // ------------------------------------------------------------ the world ---
 namespace {
 
@@ -537,9 +542,16 @@ CircuitExec::StageRun CircuitExec::runStage(Circuit &c, int opIndex, const Op &o
     stat("sched_start_order_timeouts", r.sched.startOrderTimeouts);
     if (r.sched.maxSwitchesInStep > res_.stats.get("sched_max_switches_in_step"))
       res_.stats.c["sched_max_switches_in_step"] = r.sched.maxSwitchesInStep;
-    if (r.sched.lbSteps > 0 && op.schedMode != SM_FREE) {
+    stat("sched_sequential_solves", r.sched.sequentialSolves);
+    if (r.sched.degraded) {
+      // the library no longer runs its two solves the way the token protocol expects: nothing
+      // was serialised
+      stat("sched_degraded_ops");
+      res_.schedDegraded = true;
+    } else if (r.sched.lbSteps > 0 && op.schedMode != SM_FREE) {
+      // grant sequences are compared through ExecResult::detHash, not through the event trace
       res_.schedHashes.push_back(r.sched.grantHash);
-      tr_.ev(tag + " sched grants=" + std::to_string(r.sched.grants) + " hash=" + hex64(r.sched.grantHash));
+      tr_.note(tag + " sched grants=" + std::to_string(r.sched.grants) + " hash=" + hex64(r.sched.grantHash));
     }
     if (trips > 0)
       verdict("C08", "entropy-tripwire", tag + ": the library called " + std::string(entropyLastSource()) +
